@@ -472,6 +472,7 @@ func TestBoltNut(t *testing.T) {
 			rec.Violation(t, "ThreadLookup:standard-designation-missing", "%s: %v", std.name, err)
 			return
 		}
+		before := *tp // the database entry as it is before the parts are built
 		pitch, r := tp.Pitch, tp.Radius
 		tolE, ce := drawTol(t, "tolE", pitch)
 		tolI, ci := drawTol(t, "tolI", pitch)
@@ -489,6 +490,17 @@ func TestBoltNut(t *testing.T) {
 		nstyle := rapid.SampledFrom([]string{"hex", "knurl"}).Draw(t, "nutStyle")
 		bp := &obj.BoltParms{Thread: std.name, Style: bstyle, Tolerance: tolE, TotalLength: threadLen + shank, ShankLength: shank}
 		np := &obj.NutParms{Thread: std.name, Style: nstyle, Tolerance: tolI}
+		// other parts of the same designation may have been built first (a tapped block, with its own
+		// tolerance): building parts must leave the database entry as it was
+		if k := rapid.IntRange(0, 2).Draw(t, "tapped-blocks-first"); k > 0 {
+			for i := 0; i < k; i++ {
+				tc := &obj.ThreadedCylinderParms{Height: 2 * nutH, Diameter: 6 * r, Thread: std.name, Tolerance: tolI}
+				if _, err := tc.Object(); err != nil {
+					t.Fatalf("ThreadedCylinderParms.Object(%+v): %v", *tc, err)
+				}
+			}
+			rec.Add("boltnut:tapped-blocks-built-first", 1)
+		}
 		bolt, err := obj.Bolt(bp)
 		if err != nil {
 			t.Fatalf("obj.Bolt(%+v): %v", *bp, err)
@@ -496,6 +508,10 @@ func TestBoltNut(t *testing.T) {
 		nut, err := obj.Nut(np)
 		if err != nil {
 			t.Fatalf("obj.Nut(%+v): %v", *np, err)
+		}
+		if after, err := sdf.ThreadLookup(std.name); err != nil || *after != before {
+			rec.Violation(t, "ThreadLookup:entry-changed-by-building-parts", "%s: entry was %+v before obj.Bolt / obj.Nut / ThreadedCylinderParms.Object (tolerances %v, %v) and is %+v afterwards (err %v)", std.name, before, tolE, tolI, after, err)
+			*after = before // restore for the cases that follow in this process
 		}
 		// bolt.go: the head is centred on the origin, the shank spans [0, ShankLength+hh/2],
 		// the thread of length TotalLength-ShankLength follows.
